@@ -4,7 +4,7 @@ P=$1
 cd /repo && git apply --check "$P" || { echo "patch does not apply"; exit 3; }
 git -C /repo apply "$P"
 cd /verif
-for c in C01 C02 C03 C04 C05 C06 C07 C08 C09 C10 C11 C12 C13 C14 C15 C16 C17 C18; do
+for c in C01 C02 C03 C04 C05 C06 C07 C08 C09 C10 C11 C12 C13 C14 C15 C16 C17 C18 C19; do
   out=$(./check $c 2>&1); code=$?
   if [ $code -ne 0 ]; then echo "== $c exit=$code"; echo "$out" | grep -E "^  key:|CANNOT|INTERNAL|Error" | cut -c1-300; fi
 done
